@@ -1,0 +1,35 @@
+//go:build verif
+
+package zoekt
+
+import (
+	"encoding/hex"
+	"strconv"
+)
+
+// Verification hooks for property C26 (binary codecs); not part of the normal build.
+
+// VerifReposMapEncode is reposMapEncode.
+func VerifReposMapEncode(m ReposMap) ([]byte, error) { return reposMapEncode(m) }
+
+// VerifReposMapDecode is reposMapDecode.
+func VerifReposMapDecode(b []byte) (ReposMap, error) { return reposMapDecode(b) }
+
+// VerifBinaryReaderOps runs a sequence of binaryReader primitives over b ('u' = uvarint, 's' = str, 'b' = byt)
+// and reports each result, the unread remainder and whether the reader's error is set.
+func VerifBinaryReaderOps(b []byte, ops string) (results []string, rest []byte, failed bool) {
+	r := binaryReader{typ: "verif", b: append([]byte(nil), b...)}
+	for _, op := range ops {
+		switch op {
+		case 'u':
+			results = append(results, "u"+strconv.Itoa(r.uvarint()))
+		case 's':
+			results = append(results, "s"+hex.EncodeToString([]byte(r.str())))
+		case 'b':
+			results = append(results, "b"+strconv.Itoa(int(r.byt())))
+		default:
+			panic("VerifBinaryReaderOps: unknown op")
+		}
+	}
+	return results, append([]byte(nil), r.b...), r.err != nil
+}
